@@ -18,6 +18,7 @@ var bsConsKinds = []kindInfo{
 	{"any-bytes", true}, {"any-string", true}, {"writer", true}, {"readerfrom", true}, {"bytes-buffer", true},
 	{"binary-unmarshaler", true}, {"prepop-bytes", true}, {"prepop-string", true},
 	{"nil", false}, {"nil-ptr-string", false}, {"nil-ptr-bytes", false}, {"nil-ptr-any", false}, {"nil-ptr-named-bytes", false},
+	{"nil-ptr-binary-unmarshaler", false}, {"nil-ptr-bytes-buffer", false},
 	{"nonptr-bytes", false}, {"nonptr-string", false}, {"int", false}, {"ptr-int", false}, {"ptr-struct", false},
 	{"ptr-strings", false}, {"ptr-ptr-bytes", false}, {"any-nil", false}, {"any-int", false},
 }
@@ -25,6 +26,7 @@ var bsConsKinds = []kindInfo{
 var txConsKinds = []kindInfo{
 	{"ptr-string", true}, {"ptr-named-string", true}, {"text-unmarshaler", true}, {"prepop-string", true},
 	{"nil", false}, {"nil-ptr-string", false}, {"nil-ptr-named-string", false}, {"nil-ptr-int", false}, {"int", false},
+	{"nil-ptr-text-unmarshaler", false},
 	{"ptr-struct", false}, {"ptr-bytes", false}, {"ptr-ptr-string", false}, {"nonptr-string", false}, {"ptr-any", false},
 }
 
@@ -224,6 +226,12 @@ func (c *run) makeDest(kind string, expectLen int) dest {
 		return dest{arg: (*namedString)(nil)}
 	case "nil-ptr-int":
 		return dest{arg: (*int)(nil)}
+	case "nil-ptr-text-unmarshaler":
+		return dest{arg: (*tuDest)(nil)} // a typed-nil pointer whose type has the unmarshalling method
+	case "nil-ptr-binary-unmarshaler":
+		return dest{arg: (*buDest)(nil)}
+	case "nil-ptr-bytes-buffer":
+		return dest{arg: (*bytes.Buffer)(nil)}
 	case "nonptr-bytes":
 		return dest{arg: []byte("dest")}
 	case "nonptr-string":
